@@ -7,6 +7,10 @@ The agent gets the text of one property (from properties.jsonl) and its own scra
 """
 import json, sys
 
+focus = ""
+if "--focus" in sys.argv:
+    i = sys.argv.index("--focus"); del sys.argv[i]
+    focus = """ FOCUS OF THIS ROUND: change 1 must sit OUTSIDE the code that most directly implements the property - in a caller, a helper, a shared utility, a constructor / configuration / reset path, the command line layer, or another package the property's code relies on - so that the property's own code is untouched and still breaks. Change 2 must only manifest on the SECOND or later use of something: state kept between evaluations of the same tree, between calls, loads, resets, restarts, re-registrations, repeated commands, or after an earlier error - the first use must behave exactly as before."""
 pid, d = sys.argv[1], sys.argv[2].rstrip("/")
 p = next(json.loads(l) for l in open("/verif/properties.jsonl") if json.loads(l)["id"] == pid)
 a = p["anchors"]
@@ -22,7 +26,7 @@ TASK: produce TWO independent, realistic changes to the repository source (each 
  (a) the code still compiles (go build for the packages touched; `go vet` clean is not required),
  (b) the repository's existing test suite still passes with the change: `go test -vet=off -count=1 ./parser ./interpreter ./scope ./engine/... ./util ./stdlib ./cli/tool ./config` (cli/tool TestHandleInput is known to be flaky on a loaded machine — rerun once if only it fails),
  (c) the change looks like something a developer might plausibly commit — a refactoring slip, an "optimisation", an off-by-one, a dropped or narrowed lock, a reordered statement, a cache, a "simplification", a wrong default — not sabotage with obviously dead conditions, magic constants or special-cased inputs.
-Prefer changes that need something SPECIFIC to manifest — a particular interleaving, a fault or error at a particular point, a multi-step sequence of operations, an unusual input, or two cooperating sites that each look fine alone — rather than ones that ordinary use would expose at once. The two changes must differ in kind (different mechanism / different site). Look beyond the most obvious site: the less prominent files in the list above, error paths, rarely used language features and the interaction of two components are all fair game, as long as it is THIS property that breaks. Do not touch test files, and do not touch the package `verifhook` or the `verifhook.At(...)` call sites (they are inert instrumentation).
+Prefer changes that need something SPECIFIC to manifest — a particular interleaving, a fault or error at a particular point, a multi-step sequence of operations, an unusual input, or two cooperating sites that each look fine alone — rather than ones that ordinary use would expose at once. The two changes must differ in kind (different mechanism / different site). Look beyond the most obvious site: the less prominent files in the list above, error paths, rarely used language features and the interaction of two components are all fair game, as long as it is THIS property that breaks.{focus} Do not touch test files, and do not touch the package `verifhook` or the `verifhook.At(...)` call sites (they are inert instrumentation).
 
 For EACH change provide a demonstration: a Go test file (to be placed in the relevant package directory of the worktree, named zz_seed_demo1_test.go / zz_seed_demo2_test.go) that FAILS with the change applied and PASSES on the unmodified worktree HEAD. Run it both ways and keep the outputs. For schedule-dependent breakage the demo may use loops, many goroutines, runtime.Gosched/sleeps to make the failure likely; say how often it fails (it should fail in the clear majority of runs with the change and never without).
 
